@@ -5,3 +5,4 @@ pub mod ops;
 pub mod pool;
 pub mod project;
 pub mod replay;
+pub mod vectors;
